@@ -29,6 +29,17 @@ pub fn root_uid(pos: usize) -> u64 {
 pub fn prefix_uid(pos: usize) -> u64 {
     mix(0xBEEF_0000, pos as u64) | 1
 }
+/// A collect_into terminal may be a two-step history on one target: `spare % 3 == 1` adds a second, map-only parallel
+/// collect of `1 + spare % 7` fresh elements into the collection the first step returned (`spare % 6 == 4`: that small
+/// collect comes first and the generated computation collects into what it returned). Returns (count, extras first?).
+pub fn second_step(spare: u16) -> (usize, bool) {
+    if spare % 3 == 1 {
+        (1 + (spare as usize % 7), spare % 6 == 4)
+    } else {
+        (0, false)
+    }
+}
+
 /// uid of the `j`-th value produced by stage `stage` from the element `parent`.
 #[inline]
 pub fn derive(parent: u64, stage: u32, j: u32) -> u64 {
